@@ -105,7 +105,38 @@ def gen_cases(tier, seed):
         base['cancel_msg'] = 'bye'
         base['plan'] = {'gate': {'match': rng.choice(['/s3:', '/cb:on_queued', '/cb:on_done', '.read#']), 'phase': 'before', 'policy': 'seeded',
                                  'after_cancel_begin': rng.random() < 0.7}}
+        if rng.random() < 0.4:
+            # subscribers whose on_done raises (an exception in one on_done must not disturb anything else, C08): the exit still has to
+            # cancel, wait for and join everything
+            for k in rng.sample(range(n), rng.choice([1, n])):
+                base['transfers'][k]['subs'] = [{}, {}]
+                base['plan'].setdefault('faults', []).append({'at': f't{k}/cb:on_done:s0#0', 'phase': 'before', 'kind': 'exc', 'tag': f'FAULT-ondone-{k}'})
         cases.append({'base': base, 'dist': copy.deepcopy(base), 'victims': list(range(n)), 'style': 'cancelling-exit', 'exit': base['mode']})
+    # failures whose cleanup fails too (the part request and the abort both fail; the write and the temp-file removal both fail)
+    # while other transfers run: the barrier and the neighbours must not notice
+    for i in range(40 if quick else 400):
+        n = rng.choice([2, 3])
+        base = gen.mix(rng, n, hi=rng.choice([1, 2, 3]), sizes=[7, 16, 19, 27, 41])
+        v = rng.randrange(n)
+        vk = rng.choice(['upload', 'copy', 'download'])
+        if vk == 'upload':
+            base['transfers'][v] = {'kind': 'upload', 'src': rng.choice(['path', 'seekable', 'nonseekable']), 'size': 27}
+            f1, f2 = f't{v}/s3:UploadPart:{rng.choice([1, 2, 3])}#0', f't{v}/s3:AbortMultipartUpload#0'
+        elif vk == 'copy':
+            base['transfers'][v] = {'kind': 'copy', 'size': 27}
+            f1, f2 = f't{v}/s3:UploadPartCopy:{rng.choice([1, 2, 3])}#0', f't{v}/s3:AbortMultipartUpload#0'
+        else:
+            base['transfers'][v] = {'kind': 'download', 'dst': 'path', 'size': 27}
+            f1, f2 = f't{v}/fs:write#{rng.choice([0, 1, 3])}', f't{v}/fs:remove#0'
+        base['config'].update(multipart_threshold=16, multipart_chunksize=8)
+        base['min_part'] = 8
+        base['mode'] = 'shutdown_plain'
+        base['trigger'] = 'immediate'
+        dist = copy.deepcopy(base)
+        kind2 = 'oserror' if '/fs:' in f2 else rng.choice(['exc', 'client4xx'])
+        dist['plan']['faults'] = [{'at': f1, 'phase': 'before', 'kind': 'oserror' if '/fs:' in f1 else 'exc', 'tag': f'FAULT-v{v}'},
+                                  {'at': f2, 'phase': 'before', 'kind': kind2, 'tag': f'FAULT-v{v}-cleanup'}]
+        cases.append({'base': base, 'dist': dist, 'victims': [v], 'style': 'cleanup-fails-too', 'exit': 'shutdown_plain'})
     return cases
 
 
